@@ -65,6 +65,10 @@ func (mux *Mux) newStoreWith(prefix []byte) func() any {
 // ServeHTTP dispatches the request to the matched handler.
 func (mux *Mux) ServeHTTP(w http.ResponseWriter, r *http.Request) {
 	store := mux.storePool.Get().(*Store)
+	if cap(store.P.V) < mux.maxParams {
+		// a route with more params was registered after this Store had been created
+		store.P.V = make([]string, 0, mux.maxParams)
+	}
 	store.W.Origin = w
 	store.R = r
 	store.id = strconv.AppendUint(store.id, atomic.AddUint64(&mux.storeID, 1), 36)
